@@ -31,8 +31,9 @@ def generate(seed, tier):
     if rng.random() < 0.5:
         obs.reverse()
     faulty = rng.random() < 0.5
+    dup = [(0.06, lambda r: ["dup_reward", r.randrange(2)])] if stream(seed, "c13-dup").random() < 0.3 else None
     ops = gen_dispatch_ops(rng, n_ops(spec), p_fork=0.03 if rng.random() < 0.3 else 0.0, p_query=0.05, p_invalid=0.1 if faulty else 0.0, p_reset=0.05 if faulty else 0.0,
-                           episodes=2 if rng.random() < 0.2 else 1)
+                           episodes=2 if rng.random() < 0.2 else 1, extra=dup)
     mark_manual(stream(seed, "c13-manual"), obs, 0.12)
     cfg = {"instance": spec, "filter": names, "filter_style": style, "observers": obs, "observers_fixed": True}
     if rng.random() < 0.15:
@@ -61,6 +62,21 @@ class H(Hooks):
     def on_fork(self, w):
         self.mk = next((o for s, o in w.observers if s["t"] == "makespan_reward"), None)
         self.idle = next((o for s, o in w.observers if s["t"] == "idle_reward"), None)
+
+    def extra(self, w, i, op):
+        if op[0] != "dup_reward":
+            return super().extra(w, i, op)
+        # "create it, or use the existing one": a second reward observer of a subscribed type is requested; whatever the
+        # library answers (it refuses: singleton), the subscribed observer goes on emitting one reward per dispatch
+        from job_shop_lib.reinforcement_learning import MakespanReward, IdleTimeReward
+
+        cls = (MakespanReward, IdleTimeReward)[op[1]]
+        w.ctx.fault("duplicate_reward_observer_requested")
+        try:
+            cls(w.disp)
+        except Exception:  # noqa: BLE001 - refused
+            return "refused"
+        return "accepted"
 
     def after(self, w, i, kind, info):
         ctx = w.ctx
